@@ -79,8 +79,46 @@ def definition_level(ctx: Ctx, RULE: str = "R10.c"):
             ctx.decide(bad is None, RULE, site, f"{len(stream) + 1} cuts", bad or "", where=where(fi, fi.node))
 
 
+def combining_terminates(ctx: Ctx, RULE: str = "R10.c"):
+    """The definition's generator with segment combining enabled, on a stream of segments cut at every byte: it ends normally
+    (groups left open at the end of the source are dropped, nothing escapes)."""
+    from ..harness import Harness
+    from ..interp import StepLimit
+    from ..core import Unsupported
+    from ..models import ccsds_bytes, file_source, source_externals, model_definition
+    prog = ctx.prog
+    fi = prog.func_opt("xtce/definitions.py::XtcePacketDefinition.packet_generator")
+    if fi is None:
+        return
+    pk = [ccsds_bytes(bytes(range(1, 1 + n)), apid=ap, count=c, flags=fl) for n, ap, c, fl in ((3, 8, 1, 1), (2, 9, 7, 1), (4, 8, 2, 0), (2, 8, 3, 2), (1, 9, 8, 0))]
+    stream = b"".join(pk)
+    for kind in ("bytes", "file(read=4)"):
+        site = f"{fi.key}::combining, cut at every byte::{kind}"
+        bad = None
+        try:
+            for cut in range(0, len(stream) + 1):
+                h = Harness(prog, source_externals(), max_steps=400000)
+                h.it.ext["XtcePacketDefinition.parse_ccsds_packet"] = lambda selfv, packet, root_container_name=None: packet
+                data = stream[:cut]
+                src = data if kind == "bytes" else file_source(data)
+                kw = ", buffer_read_size_bytes=4" if kind != "bytes" else ""
+                try:
+                    k, got = h.outcome(f"d.packet_generator(src, combine_segmented_packets=True{kw})", "xtce/definitions.py", d=model_definition(h.it, "CCSDSPacket"), src=src)
+                except StepLimit:
+                    bad = f"stream cut at byte {cut}: the generator does not terminate"
+                    break
+                if k != "ok":
+                    bad = f"stream of segments cut at byte {cut} (a group is left open at the end of the source): the generator ends in {got} instead of ending normally"
+                    break
+        except Unsupported as e:
+            ctx.unknown(RULE, site, str(e))
+            continue
+        ctx.decide(bad is None, RULE, site, f"{len(stream) + 1} cuts", bad or "", where=where(fi, fi.node))
+
+
 def check(ctx: Ctx) -> None:
     thorough = ctx.stats.get("tier") == "thorough"
+    ctx.guard("R10.c", "xtce/definitions.py", combining_terminates, ctx)
     ctx.guard("R10.c", "xtce/definitions.py", definition_level, ctx)
     r = ctx.guard("R10.roles", F.GEN, F.Roles, ctx.prog)
     if r is not None:
